@@ -265,6 +265,7 @@ struct Tracee {
     fault_at: Option<(usize, i64)>,
     ops_done: usize,
     callnames: Vec<String>,
+    own_temps: std::collections::HashSet<String>, // canonical "dir/name" of temp files this tracee created
 }
 
 struct World {
@@ -777,14 +778,20 @@ fn is_private_dir(d: &str) -> bool {
 /// other participants.  Path-based calls on shared directories, and the
 /// fd-based calls that read or change metadata of a published inode or list
 /// a directory.
-fn is_decision_point(c: &Call, phase: &str) -> bool {
+fn is_decision_point(c: &Call, phase: &str, own: &std::collections::HashSet<String>) -> bool {
     if !(phase == "lib" || phase == "cb" || phase == "prep") {
         return false;
     }
     if c.name == "rec" {
         return false;
     }
-    let shared = |l: &Option<Loc>| l.as_ref().map(|x| x.under && !is_private_dir(&x.d)).unwrap_or(false);
+    // A file in a temporary directory is private only to the participant that created it: a peer's cleanup scan
+    // stats (and may unlink) other participants' temporary files.
+    let shared = |l: &Option<Loc>| {
+        l.as_ref()
+            .map(|x| x.under && (!is_private_dir(&x.d) || (x.d.ends_with(".kismet_temp") && !own.contains(&format!("{}/{}", x.d, x.n)))))
+            .unwrap_or(false)
+    };
     if c.path.is_some() || c.path2.is_some() {
         return shared(&c.path) || shared(&c.path2);
     }
@@ -1136,7 +1143,15 @@ fn advance(t: &mut Tracee, ctx: &mut RunCtx, sched: bool, stop_after_ret: bool) 
                 return Adv::Parked;
             }
         }
-        if sched && is_decision_point(&call, &t.phase) && !t.world {
+        // creating a temporary file makes it this participant's own
+        if call.name == "open" && call.flags.contains(&"CREAT") && call.flags.contains(&"EXCL") {
+            if let Some(l) = &call.path {
+                if is_private_dir(&l.d) {
+                    t.own_temps.insert(format!("{}/{}", l.d, l.n));
+                }
+            }
+        }
+        if sched && is_decision_point(&call, &t.phase, &t.own_temps) && !t.world {
             t.parked = Some(call);
             return Adv::Parked;
         }
@@ -1180,6 +1195,9 @@ fn record_exit(t: &mut Tracee, ctx: &mut RunCtx, call: &Call, rv: i64, injected:
                 ev["now"] = now_pair();
             }
             ctx.last_read = None;
+            if kind == "ret" && ctx.snap_mode == "ret" {
+                emit_snap_if_changed(ctx, &mut ev);
+            }
             ctx.emit(ev);
         }
         return done;
@@ -1367,9 +1385,11 @@ fn kill_tracee(t: &mut Tracee) {
     }
 }
 
+static XDEV: std::sync::OnceLock<String> = std::sync::OnceLock::new();
+
 fn subst(v: &Value, top: &str) -> Value {
     match v {
-        Value::String(s) => Value::String(s.replace("@TOP@", top)),
+        Value::String(s) => Value::String(s.replace("@TOP@", top).replace("@XDEV@", XDEV.get().map(|x| x.as_str()).unwrap_or("/nonexistent-xdev"))),
         Value::Array(a) => Value::Array(a.iter().map(|x| subst(x, top)).collect()),
         Value::Object(o) => Value::Object(o.iter().map(|(k, x)| (k.clone(), subst(x, top))).collect()),
         other => other.clone(),
@@ -1468,6 +1488,7 @@ fn run_stage(stage: &Value, ctx: &mut RunCtx, actor: &str, job: &Value, strategy
             fault_at: p["fault_at"].as_u64().map(|x| (x as usize, errno_of_name(p["fault_errno"].as_str().unwrap_or("EIO")))),
             ops_done: 0,
             callnames: Vec::new(),
+            own_temps: std::collections::HashSet::new(),
         };
         if sched {
             t.pid = spawn_actor(actor, &spec);
@@ -1701,6 +1722,18 @@ fn main() {
             }
             "--work" => {
                 work = args[i + 1].clone();
+                i += 2;
+            }
+            "--xdev" => {
+                // a scratch directory on ANOTHER filesystem than the worlds (for cross-device sources)
+                let d = args[i + 1].clone();
+                let _ = std::fs::create_dir_all(&d);
+                let c = CString::new(d.clone()).unwrap();
+                unsafe {
+                    libc::chown(c.as_ptr(), 65534, 65534);
+                    libc::chmod(c.as_ptr(), 0o755);
+                }
+                let _ = XDEV.set(d);
                 i += 2;
             }
             _ => i += 1,
